@@ -962,3 +962,99 @@ Proof.
   - rewrite E. cbn [res_out op_fault_clean]. unfold same_live. cbn [live]. discriminate.
   - vm_compute. repeat split.
 Qed.
+
+(* ------------------------------------------------------------------ configuration calls that allocate *)
+Lemma free_opt_spec b s r :
+  (forall y, cnt y (live s) = (cnt y (match b with Some x => [x] | None => [] end) + cnt y r)%nat) ->
+  exists s', free_opt b s = Ok tt s' /\ (forall y, cnt y (live s') = cnt y r) /\ nreq s' = nreq s.
+Proof.
+  intros H. destruct b as [x|]; cbn [free_opt].
+  - destruct (free_list_ok [x] s r) as (s' & E & Hc & Hn); [exact H|].
+    cbn [free_list] in E. destruct (free x s) as [[] s1|s1|]; try discriminate. inversion E; subst. eauto.
+  - exists s. split; [reflexivity|]. split; [intros y; rewrite H; reflexivity|reflexivity].
+Qed.
+
+(* json_c_set_serialization_double_format as written, every scope value, format or NULL,
+   every allocator behaviour.  Live before = the strings of the configuration and [rest].
+   Return 0: the settings are those of SerModel.set_format (C02's model of the call) and
+   exactly their strings are live besides [rest] — the replaced ones were released, once.
+   Return -1: the configuration — hence the effective format of every thread — and the live
+   blocks are exactly what they were.  Never a release of a block that is not live. *)
+Theorem set_format_clean o c tid fmt scope s rest :
+  Permutation (live s) (cfg_blocks c ++ rest) ->
+  op_fault_clean (fun b a => fst a = fst b /\ live (snd a) = live (snd b)) (c, s)
+    (fun a _ => fc_st (fst a) = fst (set_format true (fc_st c) tid fmt scope) /\
+                Permutation (live (snd a)) (cfg_blocks (fst a) ++ rest))
+    (cfg_out (set_format_cfg o c tid fmt scope s)).
+Proof.
+  intros HP. rewrite perm_cnt in HP. unfold cfg_blocks in HP.
+  assert (D : forall y, cnt y (live s) =
+            (cnt y (match fc_gblk c with Some b => [b] | None => [] end) +
+             cnt y (match fc_tblk c with Some b => [b] | None => [] end) + cnt y rest)%nat)
+    by (intros y; rewrite HP, !cnt_app; lia).
+  unfold set_format_cfg, set_format_gen.
+  (* the copy: either refused (-1, nothing touched) or one new block *)
+  assert (Dup : match dup_opt o fmt s with
+                | Ok None s1 => live s1 = live s
+                | Ok (Some p) s1 => forall y, cnt y (live s1) =
+                    (cnt y (match p with Some b => [b] | None => [] end) + cnt y (live s))%nat
+                | Fail _ => False
+                | UB => False
+                end).
+  { unfold dup_opt, alloc. destruct fmt; [|intros y; cbn [cnt]; lia].
+    destruct (o (nreq s)); [|reflexivity]. intros y. cbn [live cnt]. lia. }
+  destruct (scope =? 0).
+  - destruct (dup_opt o fmt s) as [[p|] s1|s1|]; try contradiction.
+    + destruct (free_opt_spec (fc_tblk c) s1
+                  (match p with Some b => [b] | None => [] end ++
+                   match fc_gblk c with Some b => [b] | None => [] end ++ rest)) as (s2 & -> & H2 & _).
+      { intros y. rewrite Dup, D, !cnt_app. lia. }
+      destruct (free_opt_spec (fc_gblk c) s2 (match p with Some b => [b] | None => [] end ++ rest))
+        as (s3 & -> & H3 & _).
+      { intros y. rewrite H2, !cnt_app. lia. }
+      cbn [cfg_out op_fault_clean fst snd fc_st]. split; [reflexivity|].
+      rewrite perm_cnt. intros y. rewrite H3. unfold cfg_blocks. cbn [fc_gblk fc_tblk].
+      rewrite !cnt_app. cbn [cnt]. lia.
+    + cbn [cfg_out op_fault_clean fst snd]. split; [reflexivity|exact Dup].
+  - destruct (scope =? 1).
+    + destruct (dup_opt o fmt s) as [[p|] s1|s1|]; try contradiction.
+      * destruct (free_opt_spec (fc_tblk c) s1
+                    (match p with Some b => [b] | None => [] end ++
+                     match fc_gblk c with Some b => [b] | None => [] end ++ rest)) as (s2 & -> & H2 & _).
+        { intros y. rewrite Dup, D, !cnt_app. lia. }
+        cbn [cfg_out op_fault_clean fst snd fc_st]. split; [reflexivity|].
+        rewrite perm_cnt. intros y. rewrite H2. unfold cfg_blocks. cbn [fc_gblk fc_tblk].
+        rewrite !cnt_app. lia.
+      * cbn [cfg_out op_fault_clean fst snd]. split; [reflexivity|exact Dup].
+    + cbn [cfg_out op_fault_clean fst snd]. split; reflexivity.
+Qed.
+
+(* what the caller observes: after a failed call every thread serializes doubles as before *)
+Corollary set_format_failed_keeps_effective o c tid fmt scope s rest c' rc s' :
+  Permutation (live s) (cfg_blocks c ++ rest) ->
+  set_format_cfg o c tid fmt scope s = Ok (c', rc) s' -> rc <> 0 ->
+  (forall t, effective (fc_st c') t = effective (fc_st c) t) /\ live s' = live s.
+Proof.
+  intros HP E Hrc. pose proof (set_format_clean o c tid fmt scope s rest HP) as T. rewrite E in T.
+  destruct rc; [congruence| |]; cbn [cfg_out op_fault_clean fst snd] in T; destruct T as [-> ->]; auto.
+Qed.
+
+(* negative control: the shape that releases the calling thread's override before the copy.
+   Thread 1 has "%.3f" (block 5) in effect, no global format; GLOBAL "%.2f" with the copy
+   (request 10) refused returns -1 — and thread 1's effective format is gone. *)
+Definition ex_cfg : fcfg := mkfc (mkfs None [(1, [37; 46; 51; 102])]) None (Some 5%nat).
+
+Theorem set_format_early_free_refuted :
+  set_format_early (single_fault 10) ex_cfg 1 (Some [37; 46; 50; 102]) 0 (mkast 10 [5%nat])
+    = Ok (mkfc (mkfs None []) None None, -1) (mkast 11 []) /\
+  effective (fc_st ex_cfg) 1 = Some [37; 46; 51; 102] /\
+  effective (mkfs None []) 1 = None /\
+  (* the code as written, same call: -1 and nothing changed; and with a cooperating allocator
+     the global format is installed, the thread's override dropped and released *)
+  set_format_cfg (single_fault 10) ex_cfg 1 (Some [37; 46; 50; 102]) 0 (mkast 10 [5%nat])
+    = Ok (ex_cfg, -1) (mkast 11 [5%nat]) /\
+  set_format_cfg no_fault ex_cfg 1 (Some [37; 46; 50; 102]) 0 (mkast 10 [5%nat])
+    = Ok (mkfc (mkfs (Some [37; 46; 50; 102]) []) (Some 10%nat) None, 0) (mkast 11 [10%nat]) /\
+  set_format_cfg (single_fault 10) ex_cfg 1 (Some [37; 46; 50; 102]) 7 (mkast 10 [5%nat])
+    = Ok (ex_cfg, -1) (mkast 10 [5%nat]).
+Proof. vm_compute. repeat split. Qed.
